@@ -56,6 +56,18 @@ var unknownNums = []int32{11, 12, 13, 14, 15, 25, 26, 99, 1000}
 // apply lays out one message.  keepOrder (primitive groups) forbids permutation
 // because there the order of the items is the order of the elements.
 func (lo *layouter) apply(m []Field, keepOrder bool) []Field {
+	if lo.l.SplitPacked {
+		var out []Field
+		for _, f := range m {
+			if f.Kind == KPacked && len(f.Packed) >= 2 {
+				h := len(f.Packed) / 2
+				out = append(out, fp(f.Num, f.Packed[:h:h]), fp(f.Num, f.Packed[h:]))
+			} else {
+				out = append(out, f)
+			}
+		}
+		m = out
+	}
 	if lo.l.FixedLast {
 		defer func() { lo.n++ }()
 		if lo.n%2 == 0 {
